@@ -1,9 +1,14 @@
 pub mod c01;
 pub mod c02;
+pub mod c06;
+pub mod c07;
 pub mod c08;
+pub mod c10;
 pub mod c13;
 pub mod c14;
+pub mod c16;
 pub mod c17;
+pub mod c18;
 pub mod common;
 
 use crate::Prop;
@@ -12,9 +17,14 @@ pub fn all() -> Vec<Box<dyn Prop>> {
     vec![
         Box::new(c01::C01),
         Box::new(c02::C02),
+        Box::new(c06::C06),
+        Box::new(c07::C07),
         Box::new(c08::C08),
+        Box::new(c10::C10),
         Box::new(c13::C13),
         Box::new(c14::C14),
+        Box::new(c16::C16),
         Box::new(c17::C17),
+        Box::new(c18::C18),
     ]
 }
